@@ -126,3 +126,35 @@ Example C15_example_checks :
   check_input 0 3 3 (1 # 10) (1 # 10) 1 (1 # 10) 0 = ValueErr "The probability of a tile being loose must be a float in (0,1)" /\
   check_input (-1) 0 3 (1 # 10) (1 # 10) 1 (1 # 10) 0 = ValueErr "The seed must be a nonnegative integer".
 Proof. vm_compute. repeat split; reflexivity. Qed.
+
+(** The pseudo-random source is no longer an oracle: Model/MT.v models CPython's random module (MT19937 seeding from
+    an int of any size, random(), getrandbits, randrange, choices) bit for bit, and gen_rnd_board on top of it
+    (tied to the real module by harness/mt_corr.py on every run). All statements: Props/C15M.v; the ones the
+    property text needs are restated here. *)
+From CR Require Import Model.MT Proofs.MTP Props.C15M.
+Local Close Scope Q_scope.
+Local Open Scope nat_scope.
+
+(* the board is a function of |seed| and the parameters: same seed, same board - there is no other state *)
+Theorem C15_reproducible : forall seed seed' L W p m fd,
+  Z.abs seed = Z.abs seed' -> gen_rnd_board_mt seed L W p m fd = gen_rnd_board_mt seed' L W p m fd.
+Proof. exact C15M_board_function. Qed.
+
+(* for every seed: requested shape, loose flags 0/1, arrows from the allowed set, a down-only tile in a row exactly under force-down *)
+Theorem C15_shape_mt : forall seed L W p m fd moves rewards loose,
+  gen_rnd_board_mt seed L W p m fd = Ok (moves, rewards, loose) ->
+  grid L W (fun a => a < (if fd then 4 else 3)) moves /\
+  (List.length rewards = L /\ forall row, In row rewards -> List.length row = W) /\
+  grid L W (fun t => t <= 1) loose /\
+  (forall row, In row moves -> (In 3 row <-> fd = true)).
+Proof. exact C15M_board_shape. Qed.
+
+(* for accepted sizes the generator returns a board (or the model's rejection loop runs out of its fuel of 200
+   rounds, probability < 2^-200); it never raises *)
+Theorem C15_total_mt : forall seed L W p m fd, 1 <= W -> m < 1023 ->
+  (exists b, gen_rnd_board_mt seed L W p m fd = Ok b) \/ gen_rnd_board_mt seed L W p m fd = OutOfFuel.
+Proof. exact C15M_board_total. Qed.
+
+Print Assumptions C15_reproducible.
+Print Assumptions C15_shape_mt.
+Print Assumptions C15_total_mt.
